@@ -22,6 +22,11 @@ def alphabet(world, h):
     return e1prop.std_alphabet(world, h)
 
 
+def alphabet_k(world, h):
+    """the same plus interrupted builds (at most one kill per history)"""
+    return e1prop.std_alphabet(world, h, kills=1)
+
+
 def plan(tier):
     W = worlds.curated()
     if tier == "quick":
